@@ -855,6 +855,10 @@ func (r *envelopingReader) Read(data []byte) (n int, err error) {
 	if len(data) > offset {
 		n, err = r.current.Read(data[offset:])
 	}
+	if offset > 0 && errors.Is(err, io.EOF) {
+		// EOF here only means this (empty) message is complete, not the whole body
+		err = nil
+	}
 	return offset + n, err
 }
 
@@ -980,6 +984,10 @@ func (r *transformingReader) Read(data []byte) (n int, err error) {
 			n, err = r.buffer.Read(data[offset:])
 		}
 		if offset+n > 0 {
+			if errors.Is(err, io.EOF) {
+				// the buffer of this (empty) message is drained; the body is not over
+				err = nil
+			}
 			return offset + n, err
 		}
 
